@@ -37,12 +37,20 @@ br_ssl_server_zero(br_ssl_server_context *cc)
 #ifdef BR_VERIF
 	BR_VERIF_GUARD(cc->eng.verif_guard_pad0, 0);
 	BR_VERIF_GUARD(cc->eng.verif_guard_pad1, 0);
+	BR_VERIF_GUARD(cc->eng.verif_guard_suites_buf, 0);
+	BR_VERIF_GUARD(cc->eng.verif_guard_ecdhe_point, 0);
+	BR_VERIF_GUARD(cc->eng.verif_guard_saved_finished, 0);
+	BR_VERIF_GUARD(cc->verif_guard_client_suites, 0);
 	BR_VERIF_GUARD(cc->verif_guard_ecdhe_key, 0);
 #endif
 	memset(cc, 0, sizeof *cc);
 #ifdef BR_VERIF
 	BR_VERIF_GUARD(cc->eng.verif_guard_pad0, 1);
 	BR_VERIF_GUARD(cc->eng.verif_guard_pad1, 1);
+	BR_VERIF_GUARD(cc->eng.verif_guard_suites_buf, 1);
+	BR_VERIF_GUARD(cc->eng.verif_guard_ecdhe_point, 1);
+	BR_VERIF_GUARD(cc->eng.verif_guard_saved_finished, 1);
+	BR_VERIF_GUARD(cc->verif_guard_client_suites, 1);
 	BR_VERIF_GUARD(cc->verif_guard_ecdhe_key, 1);
 #endif
 }
